@@ -99,6 +99,10 @@ def _has_dictionary_columns(schema: pa.Schema) -> bool:
 # ---------------------------------------------------------------------------
 
 
+class _ShmRegionOverflowError(Exception):
+    """A direct IPC write would run past the end of its allocated region."""
+
+
 class _ShmSink(RawIOBase):
     """Writable file-like object targeting a shared memory region.
 
@@ -110,12 +114,17 @@ class _ShmSink(RawIOBase):
     requirements.
     """
 
-    def __init__(self, buf: memoryview, start: int) -> None:
-        """Initialize targeting *buf* starting at byte offset *start*."""
+    def __init__(self, buf: memoryview, start: int, limit: int | None = None) -> None:
+        """Initialize targeting *buf* starting at byte offset *start*.
+
+        When *limit* is given, a write that would extend past absolute
+        offset *limit* raises instead of touching bytes outside the region.
+        """
         super().__init__()
         self._buf = buf
         self._pos = start
         self._start = start
+        self._limit = limit
 
     def write(self, data: bytes | bytearray | memoryview | pa.Buffer) -> int:  # type: ignore[override]  # ty: ignore[invalid-method-override]
         """Write *data* into the shared memory region."""
@@ -126,6 +135,8 @@ class _ShmSink(RawIOBase):
         else:
             mv = memoryview(data).cast("B") if data.format != "B" else data
         n = len(mv)
+        if self._limit is not None and self._pos + n > self._limit:
+            raise _ShmRegionOverflowError(f"write of {n} bytes at {self._pos} exceeds region end {self._limit}")
         self._buf[self._pos : self._pos + n] = mv
         self._pos += n
         return n
@@ -432,14 +443,23 @@ class ShmSegment:
 
         if not _has_dictionary_columns(batch.schema):
             # Non-dict: write IPC stream directly into SHM via _ShmSink
-            estimated = ipc.get_record_batch_size(batch) + _STREAM_OVERHEAD
+            # The stream is schema message + batch message + EOS; the schema
+            # message grows with column count and field metadata, so it must be
+            # part of the estimate rather than covered by the fixed overhead.
+            estimated = ipc.get_record_batch_size(batch) + batch.schema.serialize().size + _STREAM_OVERHEAD
             offset = self._allocator.allocate(estimated)
             if offset is None:
                 return None
-            sink = _ShmSink(shm_buf, offset)
-            writer = new_ipc_stream(sink, batch.schema)
-            writer.write_batch(batch)
-            writer.close()
+            sink = _ShmSink(shm_buf, offset, offset + estimated)
+            try:
+                writer = new_ipc_stream(sink, batch.schema)
+                writer.write_batch(batch)
+                writer.close()
+            except _ShmRegionOverflowError:
+                # Never write outside the allocation: give the region back and
+                # let the caller fall back to inline transfer.
+                self._allocator.free(offset)
+                return None
             return offset, sink.bytes_written
 
         # Dict path: serialize to buffer, then copy
